@@ -2,13 +2,80 @@ import AdaVerif.Gen.Tables
 import AdaVerif.Lemmas.Ipv6
 import AdaVerif.Lemmas.Ipv4
 import AdaVerif.Lemmas.ParseInv
+import AdaVerif.Lemmas.KernIs4
+import AdaVerif.Lemmas.Kern6Ser
+import AdaVerif.Lemmas.Kern6Parse
 /-
 C10 — Hosts are classified and canonicalised per the Standard; host kind is truthful.
 
 Spec/Host.lean transcribes the Standard's IPv4 / IPv6 / host parsers over unbounded `Nat`.
+
+The IP address kernels of the implementation are modelled statement by statement (Model/HostKernels.lean; the
+`ada::url` and `ada::url_aggregator` versions are textual twins and both are run against the model on every check):
+`kernel_is_ipv4`, `kernel_parse_ipv4`, `kernel_serialize_ipv4`, `kernel_serialize_ipv6` below prove them equal to the
+Standard's definitions on every input (Lemmas/Kern4.lean, KernIs4.lean, Kern6Ser.lean).  `parse_ipv6` is modelled and
+tied to the code the same way; its equivalence with the Standard's IPv6 parser is not proved (compared).
 -/
 namespace AdaVerif.Props.C10
 open AdaVerif AdaVerif.Spec AdaVerif.Lemmas
+
+open AdaVerif.Model.HostKernels in
+/-- **checkers::is_ipv4** = the Standard's ends-in-a-number checker, on every non-empty text without upper-case ASCII
+    (the precondition written in the source: the host has been lower-cased) -/
+theorem kernel_is_ipv4 (s : Bytes) (hs : s ≠ []) (hlow : ∀ b ∈ s, isAsciiUpper b = false) : isIpv4 s = endsInANumber s :=
+  K4.isIpv4_eq s hs hlow
+
+open AdaVerif.Model.HostKernels in
+/-- **parse_ipv4** (with `parse_ipv4_number`, its 32-bit overflow guards, the decimal fast path and the "four pure
+    decimal parts: keep the text" shortcut) stores the Standard's IPv4 parser followed by the Standard's serializer,
+    on every text that does not end in two dots (what `is_ipv4` lets through) -/
+theorem kernel_parse_ipv4 (s : Bytes)
+    (hend : (if s.getLast? == some 0x2E then s.dropLast else s).getLast? ≠ some 0x2E) :
+    parseIpv4 s = (ipv4Parse s).map ipv4Serialize :=
+  K4.parseIpv4_eq s hend
+
+open AdaVerif.Model.HostKernels in
+/-- what `is_ipv4` accepts satisfies the side condition of `kernel_parse_ipv4` -/
+theorem kernel_parse_ipv4_after_is_ipv4 (s : Bytes) (hs : s ≠ []) (hlow : ∀ b ∈ s, isAsciiUpper b = false)
+    (h : isIpv4 s = true) : parseIpv4 s = (ipv4Parse s).map ipv4Serialize := by
+  apply K4.parseIpv4_eq
+  intro hdot
+  -- a text that still ends in a dot after one dot was removed does not end in a number
+  rw [K4.isIpv4_eq s hs hlow, K4.endsInANumber_view s _ hs rfl] at h
+  generalize (if s.getLast? == some 0x2E then s.dropLast else s) = view at hdot h
+  split at h; · cases h
+  have hv := K4.snoc_of_getLast?' view 0x2E hdot
+  rw [hv, K4.splitOn_snoc_sep] at h
+  simp [K4.decision_nil] at h
+
+open AdaVerif.Model.HostKernels in
+/-- **serializers::ipv4** = the Standard's IPv4 serializer (every address) -/
+theorem kernel_serialize_ipv4 (a : Nat) : serIpv4 a = ipv4Serialize a := K4.serIpv4_eq a
+
+open AdaVerif.Model.HostKernels in
+/-- **serializers::ipv6** (longest-zero-run search, `::` placement, `write_hex_u16`) = the Standard's IPv6 serializer
+    between brackets, for every eight 16-bit pieces -/
+theorem kernel_serialize_ipv6 (a : List Nat) (hl : a.length = 8) (ha : ∀ x ∈ a, x < 65536) :
+    serIpv6 a = [0x5B] ++ ipv6Serialize a ++ [0x5D] := K6.serIpv6_eq a hl ha
+
+open AdaVerif.Model.HostKernels in
+/-- pieces of **parse_ipv6** that are proved: the hex piece reader is the Standard's "up to four hex digits", and the
+    last lines (the in-place move of the pieces behind `::`) produce the Standard's eight pieces.  The loop in
+    between is modelled and run against the code, not proved equivalent. -/
+theorem kernel_parse_ipv6_parts :
+    (∀ p : Bytes, parseHexPiece p = readHex 4 p) ∧
+    (∀ (pieces : List Nat) (k : Nat), k ≤ pieces.length → pieces.length ≤ 7 →
+      K6.finC (K6.pad8 (K6.expand pieces (some k))) (K6.expand pieces (some k)).length (some (k + 1)) =
+        V6.finish (some (pieces, some k))) :=
+  ⟨K6.parseHexPiece_eq, K6.final_some⟩
+
+open AdaVerif.Model.HostKernels in
+/-- worked instances (kernel-evaluated) -/
+example : parseIpv4 (ofStr "0x7f.1") = some (ofStr "127.0.0.1") := by decide +kernel
+open AdaVerif.Model.HostKernels in
+example : parseIpv4 (ofStr "1.2.3.4.") = some (ofStr "1.2.3.4") := by decide +kernel
+open AdaVerif.Model.HostKernels in
+example : (parseIpv6 (ofStr "1::abcd:1.2.3.4")).map serIpv6 = some (ofStr "[1::abcd:102:304]") := by decide +kernel
 
 /-- parsing a serialized IPv4 address is the identity, for all 2^32 addresses -/
 theorem ipv4_parse_serialize (a : Nat) (ha : a < 2 ^ 32) : ipv4Parse (ipv4Serialize a) = some a :=
